@@ -62,6 +62,7 @@ typedef struct cprog_s {
   int owner_never_collects;   /* C08-B: teardown of thread 0 must not collect before the page-count oracle */
   int quiescence;             /* 1: check "heap of thread 0 holds no live pages" after everything is freed */
   int arena_blocks;           /* >0: create a private arena with that many blocks (seam B) */
+  int arena_heap;             /* C_HEAP_NEW creates heaps bound to that (exclusive) arena */
   int sparse;                 /* 1: blocks above 128 KiB carry the pattern only in their first 64 KiB */
   int leakcheck;              /* 1: after all threads are gone and the main thread force-collected, nothing may stay claimed/mapped (C09) */
 } cprog_t;
@@ -80,6 +81,7 @@ static void*   g_bulk[4][4200]; static int g_nbulk[4];   /* blocks of C_FILL_PAG
 #define SPIN_MAX (g_race ? 2000000000L : 100000L)
 static int     g_race = 0;                  /* race pass: threads run freely under ThreadSanitizer; the cross-thread oracles are off */
 static mi_heap_t* g_hs[4];
+static int g_hs_owner[4];          /* the thread that created the heap in that slot */
 static long    g_pages_mark[8];
 static int     g_flags[8];
 static mi_subproc_id_t g_sp[4];
@@ -164,8 +166,9 @@ static int exec_ops(const cop_t* ops, int tid, int explored) {
           if (model_add((int)o->a, q, (size_t)o->b, tid, "mi_realloc")) return -1;
         } break;
       case C_COLLECT: mi_collect(o->a != 0); break;
-      case C_THREAD_DONE: mi_thread_done(); break;
-      case C_HEAP_NEW: g_hs[o->a] = mi_heap_new(); if (!g_hs[o->a]) { SVIOL("null-result", "mi_heap_new"); return -1; } break;
+      case C_THREAD_DONE: mi_thread_done(); for (int h = 0; h < 4; h++) if (g_hs[h] && g_hs_owner[h] == tid) g_hs[h] = NULL;   /* (its heaps are deleted by the exit) */
+                          break;
+      case C_HEAP_NEW: g_hs_owner[o->a] = tid; g_hs[o->a] = (g_prog->arena_heap ? mi_heap_new_in_arena(g_arena_id) : mi_heap_new()); if (!g_hs[o->a]) { SVIOL("null-result", "mi_heap_new"); return -1; } break;
       case C_HMALLOC: { void* p = mi_heap_malloc(g_hs[o->a], (size_t)o->b); if (model_add((int)o->c, p, (size_t)o->b, tid, "mi_heap_malloc")) return -1; break; }
       case C_HFILL: for (long i = 0; i < o->d; i++) { void* p = mi_heap_malloc(g_hs[o->a], (size_t)o->b); if (model_add((int)(o->c + i), p, (size_t)o->b, tid, "mi_heap_malloc")) return -1; } break;
       case C_HEAP_DELETE: { mi_heap_t* h = g_hs[o->a]; g_hs[o->a] = NULL; mi_heap_delete(h);
@@ -507,6 +510,11 @@ static const cprog_t progs[] = {
   { .name = "E9", .leakcheck = 1, .nthreads = 3, .quiescence = 0,
     .setup = { { { C_INIT } }, { { C_INIT } }, { { C_MALLOC, 64, 0 }, { C_MALLOC, S8, 1 } } },
     .run   = { { { C_FREE, 1 }, { C_WAIT_FLAG, 1 }, { C_FREE, 0 } }, { { C_END } }, { { C_THREAD_DONE }, { C_SIGNAL, 1 } } } },
+  /* E10: a thread exits while its arena-bound heap (not compatible with its backing heap: the pages cannot be absorbed, they are
+     abandoned) holds live blocks; one block is freed around the exit, the others later: the arena must end up completely free */
+  { .name = "E10", .leakcheck = 1, .nthreads = 2, .quiescence = 0, .arena_blocks = 4, .arena_heap = 1,
+    .setup = { { { C_INIT } }, { { C_HEAP_NEW, 1 }, { C_HFILL, 1, S8, 0, 3 } } },
+    .run   = { { { C_FREE, 0 }, { C_WAIT_FLAG, 1 }, { C_FREE, 1 }, { C_FREE, 2 } }, { { C_THREAD_DONE }, { C_SIGNAL, 1 } } } },
   /* E4: sub-processes: a thread of another sub-process allocates while a segment of the main one is abandoned */
   { .name = "E4", .leakcheck = 1, .nthreads = 3, .quiescence = 0,
     .setup = { { { C_INIT } }, { { C_MALLOC, S8, 0 }, { C_MALLOC, S8, 1 } }, { { C_SUBPROC }, { C_INIT } } },
